@@ -543,6 +543,7 @@ def fd_aux(chk, tier, rng, seed):
 
 def run(tier, seed):
     chk = common.Check(PID, tier, seed)
+    lattice.REUSE = True          # parameter settings reached on live objects, by every route (see lattice.py)
     rng = random.Random(seed)
     torch.manual_seed(seed)
     chk.rule = ("lattice points (all parameters non-zero) x random datasets with any basis strings over {X,Y,Z} "
